@@ -79,6 +79,10 @@ Proof.
 Qed.
 Print Assumptions C16_numbers.
 
+(* \NNN is one byte: \351 is the byte 0351 (not the two-byte UTF-8 form of U+00E9), \400 the byte 0, \101 the letter A *)
+Example C16_octal_bytes : oct_out 51 53 49 = [233 + raw_base] /\ oct_out 52 48 48 = [0] /\ oct_out 49 48 49 = [65].
+Proof. repeat split; vm_compute; reflexivity. Qed.
+
 (* mode 0644 = 420, 04 and 0 in octal; size 1048576 in decimal *)
 Example C16_numbers_witness :
   render_num 8 420 = [54; 52; 52] /\ render_num 8 4 = [52] /\ render_num 8 0 = [48] /\
